@@ -1,4 +1,4 @@
-import GrinVerif.Lemmas.SerTxRt
+import GrinVerif.Lemmas.SerAccept
 /-! # C10 — encoding round-trips, canonical form, version-independent hashes
 
 Property theorems about the codec model (`Model/Ser*.lean`), which the correspondence run ties to
@@ -150,5 +150,214 @@ parameter, so decode-then-hash feeds the hasher the same bytes under every versi
 theorem output_hash_version_independent (o : Output) (h : o.WF) (rest : Bytes) :
     (decOutput (encOutput o ++ rest)).map (fun p => p.1.hashBytes) = .ok o.hashBytes := by
   rw [output_roundtrip o h rest]; rfl
+
+/-- What the code does with a range-proof length field below 675 (recorded as a theorem about the
+model because the property as worded wants a refusal): the decoder reads `len` bytes, zero-pads to
+the full array and reports `plen = 675`, so the value re-encodes to 8 + 675 bytes, not to the
+8 + `len` bytes that were read. The correspondence harness reproduces this on the real decoder
+(`#KNOWN-PROBE rangeproof-length-normalised`). -/
+theorem rangeProof_short_length_accepted (p : Bytes) (hlen : p.length < MAX_PROOF_SIZE) (rest : Bytes) :
+    decRangeProof (writeU64 p.length ++ (p ++ rest))
+      = .ok ({ plen := MAX_PROOF_SIZE, proof := p ++ List.replicate (MAX_PROOF_SIZE - p.length) 0 }, rest) := by
+  have h64 : p.length < 2^64 := by unfold MAX_PROOF_SIZE at hlen; omega
+  have hmin : min p.length MAX_PROOF_SIZE = p.length := Nat.min_eq_left (by omega)
+  have hcap : p.length ≤ MAX_FIXED_READ := by unfold MAX_PROOF_SIZE at hlen; unfold MAX_FIXED_READ; omega
+  have hrf := readFixed_write p p.length rfl hcap rest
+  simp only [writeFixed] at hrf
+  rw [decRangeProof, readU64_write _ h64, andThen_ok, hmin, hrf, andThen_ok]
+
+/-! ## Inputs / TransactionBody / Transaction -/
+
+/-- `Inputs` in both encodings under every version: features-and-commit for protocol version ≤ 2,
+commit-only for ≥ 3 (a features-and-commit list is written as its commitments re-sorted by
+commitment hash, and that — `norm` — is what comes back). `henc` excludes only the case the writer
+itself refuses (`CommitOnly` with entries at version ≤ 2: `UnsupportedProtocolVersion`). -/
+theorem inputs_roundtrip (key : Bytes → Nat) (ver : Nat) (ins : Inputs) (bs : Bytes)
+    (henc : encInputs key ver .full ins = .ok bs) (hwf : ins.WF key ver)
+    (hcap : ins.len ≤ MAX_MULTI_COUNT) (rest : Bytes) :
+    decInputs ver ins.len (bs ++ rest) = .ok (ins.norm key ver, rest) :=
+  decInputs_enc key ver ins bs henc hwf hcap rest
+
+theorem inputs_reencode (key : Bytes → Nat) (ver : Nat) (ins : Inputs) (hwf : ins.WF key ver) :
+    encInputs key ver .full (ins.norm key ver) = encInputs key ver .full ins :=
+  encInputs_norm key ver ins hwf
+
+/-- `norm` only ever drops the features: the commitments are the same set (a permutation). -/
+theorem inputs_norm_same_commitments (key : Bytes → Nat) (ver : Nat) (ins : Inputs) :
+    ((ins.norm key ver).commits).Perm ins.commits := by
+  unfold Inputs.norm
+  split
+  · split <;> simp [Inputs.commits]
+  · cases ins with
+    | commitOnly l => simp [Inputs.toCommits, Inputs.commits]
+    | featuresAndCommit l => simpa [Inputs.toCommits, Inputs.commits] using sortByKey_perm _ _
+
+/-- A commit-only input list cannot be written at protocol version ≤ 2 (the writer refuses rather
+than invent features). -/
+theorem inputs_commitOnly_v2_unsupported (key : Bytes → Nat) (ver : Nat) (hv : ver ≤ 2) (x : Bytes) (l : List Bytes) :
+    encInputs key ver .full (.commitOnly (x :: l)) = .error .unsupportedVersion := by
+  simp [encInputs, Inputs.len, hv]
+
+theorem txBody_roundtrip (c : Cfg) (b : TxBody) (bs : Bytes)
+    (henc : encTxBody c.key c.ver .full b = .ok bs) (hwf : b.WF c) (rest : Bytes) :
+    decTxBody c (bs ++ rest) = .ok (b.norm c, rest) := decTxBody_enc c b bs henc hwf rest
+
+theorem txBody_reencode (c : Cfg) (b : TxBody) (hwf : b.WF c) :
+    encTxBody c.key c.ver .full (b.norm c) = encTxBody c.key c.ver .full b := encTxBody_norm c b hwf
+
+/-- Canonical form of bodies, for **every** input byte string: whatever `TransactionBody::read`
+accepts has inputs, outputs and kernels each strictly increasing by hash (unsorted or duplicate
+entries are refused, never re-sorted or de-duplicated) and weighs at most `max_block_weight`. -/
+theorem txBody_accepts_only_sorted_unique {c : Cfg} {bs : Bytes} {b : TxBody} {r : Bytes}
+    (h : decTxBody c bs = .ok (b, r)) :
+    (b.inputs.keys c.key).Pairwise (· < ·)
+    ∧ (b.outputs.map fun o => c.key o.hashBytes).Pairwise (· < ·)
+    ∧ (b.kernels.map fun k => c.key k.hashBytes).Pairwise (· < ·)
+    ∧ b.weight ≤ c.maxWeight := decTxBody_accepts h
+
+/-- Counts over the block weight are refused before any entry is read. -/
+theorem txBody_counts_over_weight (c : Cfg) (ni no nk : Nat) (h1 : ni < 2^64) (h2 : no < 2^64) (h3 : nk < 2^64)
+    (hw : weightByIok ni no nk > c.maxWeight) (r : Bytes) :
+    decTxBody c (writeU64 ni ++ (writeU64 no ++ (writeU64 nk ++ r))) = .error .tooLarge :=
+  decTxBody_overweight c ni no nk h1 h2 h3 hw r
+
+theorem transaction_roundtrip (c : Cfg) (t : Transaction) (bs : Bytes)
+    (henc : encTransaction c.key c.ver .full t = .ok bs) (hwf : t.WF c) (rest : Bytes) :
+    decTransaction c (bs ++ rest) = .ok (t.norm c, rest) := decTransaction_enc c t bs henc hwf rest
+
+theorem transaction_reencode (c : Cfg) (t : Transaction) (hwf : t.WF c) :
+    encTransaction c.key c.ver .full (t.norm c) = encTransaction c.key c.ver .full t :=
+  encTransaction_norm c t hwf
+
+/-- a well-formed body with one input, one output and one kernel at protocol version 3
+(key = big-endian value of the first two hashed bytes; inhabited `WF`) -/
+example : ({ inputs := .featuresAndCommit [{ features := .coinbase, commit := List.replicate 33 1 }],
+             outputs := [{ id := { features := .plain, commit := List.replicate 33 2 },
+                           proof := { plen := 675, proof := List.replicate 675 3 } }],
+             kernels := [{ features := .heightLocked 5 9, excess := List.replicate 33 4,
+                           excessSig := List.replicate 64 5 }] } : TxBody).WF
+    { ver := 3, nrd := false, maxWeight := 40000, proofSize := 42, key := fun b => ofBE (b.take 2) } := by
+  refine ⟨⟨?_, ?_⟩, ?_, ?_, ?_, ?_, ?_, ?_, ?_, ?_⟩
+  · intro i hi; simp only [List.mem_singleton] at hi; subst hi; exact List.length_replicate
+  · simp
+  · intro o ho; simp only [List.mem_singleton] at ho; subst ho
+    exact ⟨List.length_replicate, rfl, List.length_replicate⟩
+  · simp
+  · intro k hk; simp only [List.mem_singleton] at hk; subst hk
+    exact ⟨by decide, List.length_replicate, List.length_replicate⟩
+  · simp
+  · decide
+  · decide
+  · decide
+  · decide
+
+/-! ## Proof / ProofOfWork / BlockHeader -/
+
+/-- Packed proof nonces: every `edge_bits` 1..63, every proof size whose packed length is 8..100 000
+bytes, all nonces below `2^edge_bits` — `pack_bits` then `read_number` gives the nonces back,
+bit-exactly, and the padding check passes. -/
+theorem proof_roundtrip (c : Cfg) (p : Proof) (h : p.WF c.proofSize) (rest : Bytes) :
+    decProof c (encProof c.proofSize .full p ++ rest) = .ok (p, rest) := decProof_enc c p h rest
+
+/-- the bridge used by `proof_roundtrip`: the packed bytes are the little-endian bytes of
+`Σ nonceᵢ · 2^(i · edge_bits)` -/
+theorem proof_packing_is_little_endian_sum (w P : Nat) (hw : w ≤ 63) (ns : List Nat) (hlen : ns.length = P)
+    (h : ∀ n ∈ ns, n < 2^w) :
+    packBits w ns (packLen P w) = leBytes (packLen P w) (packNat w ns) := packBits_eq w P hw ns hlen h
+
+example : ({ edgeBits := 31, nonces := List.replicate 42 (2^31 - 1) } : Proof).WF 42 := by
+  refine ⟨by decide, by decide, List.length_replicate, ?_, by decide, by decide⟩
+  intro n hn; rw [List.eq_of_mem_replicate hn]; decide
+
+/-- `edge_bits ∈ {0} ∪ [64, 255]` is refused. -/
+theorem proof_edge_bits_range (c : Cfg) (eb : Nat) (h : eb = 0 ∨ eb > 63) (r : Bytes) :
+    decProof c (eb :: r) = .error .corrupted := decProof_edgeBits c eb h r
+
+/-- Non-zero padding bits are refused: any packed byte string (of the right length) whose value has
+a bit set at or above `proofsize · edge_bits`. -/
+theorem proof_padding_bits (c : Cfg) (eb : Nat) (bits rest : Bytes) (h1 : 1 ≤ eb) (h63 : eb ≤ 63)
+    (hlen : bits.length = packLen c.proofSize eb) (h8 : 8 ≤ packLen c.proofSize eb)
+    (hcap : packLen c.proofSize eb ≤ MAX_FIXED_READ) (hall : AllBytes bits)
+    (hpad : 2^(c.proofSize * eb) ≤ ofLE bits) :
+    decProof c (eb :: (bits ++ rest)) = .error .corrupted :=
+  decProof_padding c eb bits rest h1 h63 hlen h8 hcap hall hpad
+
+theorem proofOfWork_roundtrip (c : Cfg) (p : ProofOfWork) (h : p.WF c.proofSize) (rest : Bytes) :
+    decProofOfWork c (encProofOfWork c.proofSize .full p ++ rest) = .ok (p, rest) :=
+  decProofOfWork_enc c p h (decProof_enc c p.proof h.2.2.2) rest
+
+/-- All header field values (u16 version, u64 height and MMR sizes, every timestamp chrono can turn
+into a date, every proof of work in `Proof.WF`), every protocol version. -/
+theorem blockHeader_roundtrip (c : Cfg) (h : BlockHeader) (hwf : h.WF c.proofSize) (rest : Bytes) :
+    decBlockHeader c (encBlockHeader c.proofSize .full h ++ rest) = .ok (h, rest) :=
+  decBlockHeader_enc c h hwf (decProof_enc c h.pow.proof hwf.2.2.2.2.2.2.2.2.2.2.2.2.2.2.2) rest
+
+/-- A timestamp outside `NaiveDate::MIN ..= NaiveDate::MAX` is refused (everything else valid). -/
+theorem blockHeader_timestamp_range (c : Cfg) (h : BlockHeader)
+    (hv : h.version < 2^16) (hh : h.height < 2^64)
+    (hi1 : -(2^63 : Int) ≤ h.timestamp) (hi2 : h.timestamp < (2^63 : Int))
+    (hbad : h.timestamp > TS_MAX ∨ h.timestamp < TS_MIN)
+    (l1 : h.prevHash.length = HASH_SIZE) (l2 : h.prevRoot.length = HASH_SIZE)
+    (l3 : h.outputRoot.length = HASH_SIZE) (l4 : h.rangeProofRoot.length = HASH_SIZE)
+    (l5 : h.kernelRoot.length = HASH_SIZE) (l6 : h.totalKernelOffset.length = BLIND_SIZE)
+    (ho : h.outputMmrSize < 2^64) (hk : h.kernelMmrSize < 2^64)
+    (hpow : h.pow.WF c.proofSize) (rest : Bytes) :
+    decBlockHeader c (encBlockHeader c.proofSize .full h ++ rest) = .error .corrupted :=
+  decBlockHeader_timestamp_range c h hv hh hi1 hi2 hbad l1 l2 l3 l4 l5 l6 ho hk hpow
+    (decProof_enc c h.pow.proof hpow.2.2.2) rest
+
+/-- The header hash is computed from the packed nonces alone (hash mode skips the pre-PoW fields,
+difficulty, scaling, nonce and the `edge_bits` byte): no protocol version enters. -/
+theorem blockHeader_hashBytes_eq (proofSize : Nat) (h : BlockHeader) :
+    h.hashBytes proofSize = h.pow.proof.packNonces proofSize := by
+  simp [BlockHeader.hashBytes, encBlockHeader, encProofOfWork, encProof]
+
+theorem blockHeader_hash_version_independent (c : Cfg) (h : BlockHeader) (hwf : h.WF c.proofSize) (rest : Bytes) :
+    (decBlockHeader c (encBlockHeader c.proofSize .full h ++ rest)).map (fun p => p.1.hashBytes c.proofSize)
+      = .ok (h.hashBytes c.proofSize) := by
+  rw [blockHeader_roundtrip c h hwf rest]; rfl
+
+/-! ## Block / CompactBlock / ShortId / Tip -/
+
+theorem block_roundtrip (c : Cfg) (b : Block) (bs : Bytes)
+    (henc : encBlock c.key c.proofSize c.ver .full b = .ok bs) (hwf : b.WF c) (rest : Bytes) :
+    decBlock c (bs ++ rest) = .ok (b.norm c, rest) :=
+  decBlock_enc c b bs henc hwf (decProof_enc c b.header.pow.proof hwf.1.2.2.2.2.2.2.2.2.2.2.2.2.2.2.2) rest
+
+theorem block_reencode (c : Cfg) (b : Block) (hwf : b.WF c) :
+    encBlock c.key c.proofSize c.ver .full (b.norm c) = encBlock c.key c.proofSize c.ver .full b :=
+  encBlock_norm c b hwf
+
+/-- A block's hash is its header's hash: the body (and with it the inputs' encoding) never reaches
+the hasher, whatever the writer's protocol version. -/
+theorem block_hashBytes_version_free (key : Bytes → Nat) (proofSize v : Nat) (b : Block) :
+    encBlock key proofSize v .hash b = .ok (b.hashBytes proofSize) := by
+  simp [encBlock, Block.hashBytes, BlockHeader.hashBytes]
+
+theorem block_hash_version_independent (c : Cfg) (b : Block) (bs : Bytes)
+    (henc : encBlock c.key c.proofSize c.ver .full b = .ok bs) (hwf : b.WF c) (rest : Bytes) :
+    (decBlock c (bs ++ rest)).map (fun p => p.1.hashBytes c.proofSize) = .ok (b.hashBytes c.proofSize) := by
+  rw [block_roundtrip c b bs henc hwf rest]; rfl
+
+theorem shortId_roundtrip (s : Bytes) (h : s.length = SHORT_ID_SIZE) (rest : Bytes) :
+    decShortId (encShortId s ++ rest) = .ok (s, rest) := decShortId_enc s h rest
+
+theorem compactBlock_roundtrip (c : Cfg) (b : CompactBlock) (hwf : b.WF c) (rest : Bytes) :
+    decCompactBlock c (encCompactBlock c.proofSize c.ver .full b ++ rest) = .ok (b, rest) :=
+  decCompactBlock_enc c b hwf (decProof_enc c b.header.pow.proof hwf.1.2.2.2.2.2.2.2.2.2.2.2.2.2.2.2) rest
+
+/-- Compact block bodies: whatever is accepted has outputs, kernels and short ids strictly sorted. -/
+theorem compactBody_accepts_only_sorted_unique {c : Cfg} {bs : Bytes} {b : CompactBlockBody} {r : Bytes}
+    (h : decCompactBody c bs = .ok (b, r)) :
+    (b.outFull.map fun o => c.key o.hashBytes).Pairwise (· < ·)
+    ∧ (b.kernFull.map fun k => c.key k.hashBytes).Pairwise (· < ·)
+    ∧ (b.kernIds.map fun s => c.key (encShortId s)).Pairwise (· < ·) := decCompactBody_accepts h
+
+theorem tip_roundtrip (t : Tip) (hwf : t.WF) (rest : Bytes) : decTip (encTip t ++ rest) = .ok (t, rest) :=
+  decTip_enc t hwf rest
+
+example : ({ height := 2^64 - 1, lastBlockH := List.replicate 32 255, prevBlockH := List.replicate 32 0,
+             totalDifficulty := 0 } : Tip).WF :=
+  ⟨by decide, List.length_replicate, List.length_replicate, by decide⟩
 
 end GV.Props.C10
